@@ -30,7 +30,8 @@ type routeCase struct {
 	Fb        string `json:"fallback"`
 	Fac       string `json:"factory"`
 	Ops       string `json:"ops"`
-	Name      string `json:"name"` // model syntax: ~ is the empty name
+	Name      string `json:"name"`      // token: ~ is the empty name, n1.. / a1.. are the unusual names of unusualNames
+	NameReal  string `json:"name_real"` // the real name, Go-quoted (documentation; derived from Name)
 	Streaming bool   `json:"streaming"`
 	ChildOut  string `json:"child_out,omitempty"`
 	Child     string `json:"child_script,omitempty"`
@@ -39,17 +40,73 @@ type routeCase struct {
 	ViaWrap   bool   `json:"via_wrapper,omitempty"`
 }
 
+// Names in the line protocol are tokens without spaces. The model is parametric in names (it only
+// compares them, tests emptiness, and the `pfx` factory tests a leading "a"), so unusual real names are
+// represented by tokens through a fixed injective dictionary: `~` is the empty name, a plain token
+// stands for itself, and the tokens below stand for names that an implementation might wrongly
+// normalise (trim, case-fold, cut at "/" or NUL, truncate). Tokens start with "a" iff the name does.
+var unusualNames = []struct{ tok, real string }{
+	{"n1", " "}, {"n2", "\t"}, {"n3", "\n"}, {"n4", " x"}, {"n5", "x "}, {"n6", "X"}, {"n7", "x/y"},
+	{"n8", "x\x00y"}, {"n9", "ünï/名前 \u00a0"}, {"n10", strings.Repeat("x", 5000)}, {"n11", "Ab"},
+	{"a1", "ab "}, {"a2", "aB"}, {"n12", "\u00a0"}, {"n13", "x\x00"},
+}
+
+var tokToReal, realToTok = func() (map[string]string, map[string]string) {
+	a, b := map[string]string{}, map[string]string{}
+	for _, u := range unusualNames {
+		a[u.tok], b[u.real] = u.real, u.tok
+	}
+	return a, b
+}()
+
+// escTok is an injective spaceless rendering of an arbitrary string (`~` = empty).
+func escTok(s string) string {
+	if s == "" {
+		return "~"
+	}
+	var b strings.Builder
+	for i := 0; i < len(s); i++ {
+		c := s[i]
+		if c >= 'a' && c <= 'z' || c >= 'A' && c <= 'Z' || c >= '0' && c <= '9' || c == '_' || c == '.' || c == '/' {
+			b.WriteByte(c)
+		} else {
+			fmt.Fprintf(&b, "%%%02X", c)
+		}
+	}
+	return b.String()
+}
+
+// unTilde: token -> real name.
 func unTilde(s string) string {
 	if s == "~" {
 		return ""
 	}
+	if r, ok := tokToReal[s]; ok {
+		return r
+	}
 	return s
 }
+
+// tilde: real name -> token (a name the harness never used is escaped, so it equals no model token).
 func tilde(s string) string {
 	if s == "" {
 		return "~"
 	}
-	return s
+	if t, ok := realToTok[s]; ok {
+		return t
+	}
+	if _, clash := tokToReal[s]; !clash && escTok(s) == s {
+		return s
+	}
+	return "?" + escTok(s)
+}
+
+// nameKey orders names as the model does (by token, the empty name first).
+func nameKey(real string) string {
+	if real == "" {
+		return ""
+	}
+	return tilde(real)
 }
 func splitList(s, sep string) []string {
 	if s == "-" || s == "" {
@@ -227,7 +284,7 @@ func (g *routerRig) stateString() string {
 	for n := range g.pool {
 		names = append(names, n)
 	}
-	sort.Strings(names)
+	sort.Slice(names, func(i, j int) bool { return nameKey(names[i]) < nameKey(names[j]) })
 	var reg []string
 	for _, n := range names {
 		if g.r.Has(n) {
@@ -692,7 +749,7 @@ func monitorRoute(mon *lib.Monitor, e entry, c routeCase, o routeOutcome) {
 	}
 }
 
-var namePool = []string{"x", "y", "ab", "b", "~"}
+var namePool = []string{"x", "y", "ab", "b", "~", "x", "y", "~", "n1", "n4", "n5", "n6", "n7", "n8", "n9", "n10", "n11", "a1", "a2", "n13"}
 var facKinds = []string{"none", "none", "none", "new", "err", "nil", "both", "pfx", "odd"}
 
 func randOps(rng *rand.Rand, max int) string {
@@ -749,6 +806,10 @@ func casesFor(rng *rand.Rand, e entry, method string, streaming bool, n int) []r
 	var out []routeCase
 	add := func(c routeCase) {
 		c.MsgSeed = rng.Int63() >> 12 // exact in a JSON number
+		c.NameReal = strconv.Quote(unTilde(c.Name))
+		if len(c.NameReal) > 40 {
+			c.NameReal = c.NameReal[:40] + fmt.Sprintf("...(%d bytes)", len(unTilde(c.Name)))
+		}
 		out = append(out, c)
 	}
 	// 0: registered name, success
@@ -832,7 +893,7 @@ func methodsOf(e entry) (protoreflect.ServiceDescriptor, error) {
 }
 
 func runForward(f lib.Flags, res *lib.Result, drv *lib.Driver) {
-	tie := res.Tie("forward", "K1", "every generated router in pkg/trait (table rebuilt from the working tree) x every method of the service descriptor it registers for x N cases (fixed small cases: registered/unknown name, child error, caller failure, nil metadata, factory-made client, via the generated wrapper; then random registry histories with fallback/factory kinds, random names incl. the empty name, random child scripts: open/header error, k messages, EOF or status, trailer, caller SendHeader/Send failure at any position); the real handler from the router's ServiceDesc is invoked with fake per-name client connections and its observable behaviour (child calls, response/status, header, messages, trailer, cancellation, change log, registry) compared with the Lean model; distinct = (router, method, case shape)")
+	tie := res.Tie("forward", "K1", "every generated router in pkg/trait (table rebuilt from the working tree) x every method of the service descriptor it registers for x N cases (fixed small cases: registered/unknown name, child error, caller failure, nil metadata, factory-made client, via the generated wrapper; then random registry histories with fallback/factory kinds, names from a pool of ordinary, empty and unusual names (blank, leading/trailing blank, case variants, containing / or NUL, non-ASCII, 5000 characters; injective token dictionary), random child scripts: open/header error, k messages, EOF or status, trailer, caller SendHeader/Send failure at any position); the real handler from the router's ServiceDesc is invoked with fake per-name client connections and its observable behaviour (child calls, response/status, header, messages, trailer, cancellation, change log, registry) compared with the Lean model; distinct = (router, method, case shape)")
 	mon := res.Monitor("forwarding", "property statement on the same executions with a plain-Go oracle (map registry + resolution order): exactly one child call on the client registered under the name with the same method and an equal request; response / status / header / messages / trailer equal to the child's; NotFound touches no client; child context cancelled exactly on caller error")
 	rng := lib.NewRand(f.Seed)
 	n := f.N(12, 400)
